@@ -17,7 +17,7 @@ CLAIMED.update({
  "C01": dict(
    cat="exploration", ref="DESIGN.md section 3, C01",
    technique="runtime crash monitor: recover() around every boundary call plus a parent-process classifier of worker deaths (panic on a script goroutine, fatal error), over token soup, grammar-wild templates crossed with every value kind, corpus mutation and mutated generated programs",
-   text="Each run executes tens of thousands (thorough: 1.5M) of PRNG-determined scripts through vm.ExecuteContext with Debug=false in an environment holding one value of every constructible kind plus Go functions over such values (typed, variadic, multi-result, error-returning, panicking with error/string/arbitrary values, callbacks); every input is written to the in-flight file before it runs so a process death is attributed to it; every input that ever crashed the pinned tree is replayed first. Held = no Go panic reached the caller and no worker died outside the excluded classes.",
+   text="Each run executes tens of thousands (thorough: 1.5M) of PRNG-determined scripts through vm.ExecuteContext with Debug=false in an environment holding one value of every constructible kind plus Go functions over such values (typed, variadic, multi-result, error-returning, panicking with error/string/arbitrary values, callbacks); every input is written to the in-flight file before it runs so a process death is attributed to it; every input that ever crashed the pinned tree is replayed first. Generated operands add function literals of every parameter-list shape, numerals with extreme exponents and hundreds of digits, type expressions nested three deep (incl. types reflect refuses) and Go functions returning nil errors / typed nils; every returned value is held in a goroutine's locals while its stack is moved, so a corrupt interface value kills the worker with its input in flight. Held = no Go panic reached the caller and no worker died outside the excluded classes.",
    note="Trusted: the crash classifier's reading of the runtime's fatal-error text for the excluded classes (stack/memory exhaustion, concurrent map access between script goroutines). Not generated: allocation sizes between 10^4 and 2^48, range() over huge spans, self-referential containers passed to formatting, packages tables (import cannot reach os.Exit/exec)."),
  "C18": dict(
    cat="exploration", ref="DESIGN.md section 3, C18",
@@ -32,12 +32,12 @@ CLAIMED.update({
  "C02": dict(
    cat="exploration", ref="DESIGN.md section 3, C02",
    technique="runtime monitor over non-terminating programs: after cancel() returned, the call must return with 'execution interrupted' within a logical budget of probe events; a call that does not return is classified from two goroutine-state samples and process CPU time",
-   text="Every core (all loop forms, nested for-in, unbounded recursion through functions of 0/1/3/6/variadic parameters, tick-less loops, every blocking channel operation) under every single wrapper (29 wrapping constructs: call paths, go, try/catch/finally bodies, both sides of ??, ternary, call argument, deferred callees, switch, branches, callbacks handed to Go func types) in both positions is enumerated completely each run, plus PRNG wrapper chains up to depth 3; cancellation lands synchronously at the k-th probe (k swept) or asynchronously after 0-3 ms at GOMAXPROCS 1/2/16. A contended phase lets the script consume a buffered channel (range / receive forms) while host goroutines take values from the same channel; once the feed has stopped and the buffer is empty the context is cancelled (150 trials per case). Callback wrappers include Go func types with an error result.",
+   text="Every core (all loop forms, nested for-in, unbounded recursion through functions of 0/1/3/6/variadic parameters, tick-less loops, every blocking channel operation) under every single wrapper (29 wrapping constructs: call paths, go, try/catch/finally bodies, both sides of ??, ternary, call argument, deferred callees, switch, branches, callbacks handed to Go func types) in both positions is enumerated completely each run, plus PRNG wrapper chains up to depth 3; cancellation lands synchronously at the k-th probe (k swept) or asynchronously after 0-3 ms at GOMAXPROCS 1/2/16. A contended phase lets the script consume a buffered channel (range / receive forms) while host goroutines take values from the same channel; once the feed has stopped and the buffer is empty the context is cancelled (150 trials per case). Callback wrappers include Go func types with an error result and script functions reaching a Go func type through struct fields, typed channels, maps/slices of funcs, variadic spread and callback results; further cores cancel the context from inside a host call and continue with plain calls; a failing deferred call is followed by a spinning one; ?? sits over index/member/slice forms of a spinning callee.",
    note="Trusted: the budget of 2*(ticks per cycle)+wrappers+2 post-cancel probe events as 'may finish the expression in progress'; the goroutine-state classifier (parked in vm frames = missed interrupt, parked under a host frame = documented exemption). Wall-clock expiry alone is inconclusive."),
  "C03": dict(
    cat="exploration", ref="DESIGN.md section 3, C03",
    technique="runtime metamorphic monitor over parser output: minimal vs fully parenthesised spellings of generated expression trees must parse to the same tree (reflection dump) and evaluate to the same value; literal spellings compared bit-for-bit with the Go value",
-   text="Every ordered pair and triple of the table's binary/ternary operators plus all unary/postfix neighbourhoods are enumerated completely on every run; random trees to depth 6/8 are embedded in 14 statement positions; each tree is spelled four ways, each parse is converted back to the IR and compared with the tree, and min/full spellings are executed in equal environments. Literals: every documented spelling against the Go value, out-of-range spellings must be *parser.Error.",
+   text="Every ordered pair and triple of the table's binary/ternary operators plus all unary/postfix neighbourhoods are enumerated completely on every run; random trees to depth 6/8 are embedded in 14 statement positions; each tree is spelled four ways, each parse is converted back to the IR and compared with the tree, and min/full spellings are executed in equal environments. Literals: every documented spelling against the Go value, out-of-range spellings (also below MinInt64) must be *parser.Error; a backslash before a character that is no defined escape is swept over 67 blocks of code points (only what is written may come out, every non-ASCII character is treated alike); every tree of the bare position is also parsed through a re-initialised Scanner.",
    note="Trusted: the printers' reading of the operator table in the statement; astx reflection dump. Not judged: `<-`, chained `in`, ++/--/op=, binary ^, escapes the lexer does not define."),
  "C04": dict(
    cat="exploration", ref="DESIGN.md sections 2.1 and 3, C04",
@@ -72,12 +72,12 @@ CLAIMED.update({
  "C20": dict(
    cat="exploration", ref="DESIGN.md section 3, C20",
    technique="runtime metamorphic monitor: every operation template is instantiated with its operand supplied through each provenance (variable, element, map entry, member, struct field, script call, Go call returning interface{}, parentheses, ternary, ??, parameter, var, channel receive, module member, multi-result) and must agree with the plain-variable instantiation in outcome class, value, dynamic type, identity and side effects",
-   text="203 operation templates x 27 operand kinds x 21 provenance atoms: every (template, value, atom) is enumerated completely each run; chains of length 2-3 are PRNG-sampled (thorough: all length-2 chains); each instantiation runs in a fresh environment with fresh operand objects; effects are observed from Go after the run. A pairs phase (complete list) compares arguments bound by spreading a list (plain, with leading arguments, through a Go call, under defer and go) with the same arguments written out, for callees that overwrite the list, keep a closure, assign their parameter or apply kind-sensitive operators.",
+   text="203 operation templates x 27 operand kinds x 21 provenance atoms: every (template, value, atom) is enumerated completely each run; chains of length 2-3 are PRNG-sampled (thorough: all length-2 chains); each instantiation runs in a fresh environment with fresh operand objects; effects are observed from Go after the run. A typed phase (complete) takes operands of named types and non-empty-interface values through typed addressable locations and nine binding hops against type- and identity-revealing templates. A pairs phase (complete list) compares arguments bound by spreading a list (plain, with leading arguments, through a Go call, under defer and go) with the same arguments written out, for callees that overwrite the list, keep a closure, assign their parameter or apply kind-sensitive operators.",
    note="Trusted: the variable instantiation as reference (so a defect that affects all provenances alike is out of this check's reach — other properties cover those). Excluded: a,b = <index expr> (comma-ok statement by grammar), &X, the value of X++ / X op= e, stores needing an assignable target, struct value field stores through boxing provenances."),
  "C11": dict(
    cat="exploration", ref="DESIGN.md section 3, C11",
    technique="runtime recorder monitor: Go functions manufactured with reflect.MakeFunc record exactly what they receive and how often; conversions, round trips, member access, methods and callbacks are compared with Go's own reflect conversions and identities",
-   text="An exhaustive conversion matrix (129 source values x 52 target types x 11 call forms covering fixed/variadic functions x plain/spread calls) requires: conversion exists for all arguments => the recorder is invoked exactly once with deeply equal, identically typed arguments and all results come back; otherwise an error and zero invocations. Round trips of 62 Go types through 13 routes keep dynamic type, value and pointer/channel identity; exported (also promoted) fields are read and written through pointers, value- and pointer-receiver methods are called with the supplied arguments; script callbacks of 14 func types receive what Go passes and their results are converted or refused.",
+   text="An exhaustive conversion matrix (129 source values x 52 target types x 11 call forms covering fixed/variadic functions x plain/spread calls) requires: conversion exists for all arguments => the recorder is invoked exactly once with deeply equal, identically typed arguments and all results come back; otherwise an error and zero invocations. Round trips of 62 Go types through 13 routes keep dynamic type, value and pointer/channel identity; exported (also promoted) fields are read and written through pointers, value- and pointer-receiver methods are called with the supplied arguments; script callbacks of 14 func types receive what Go passes and their results are converted or refused. Named types of every basic kind with methods are held in addressable Go locations and taken through 32 binding hops (dynamic type, value- and pointer-receiver methods must survive); a script list of length 0 must arrive as an empty non-nil container on every route; one adapted callback is invoked from 4-12 goroutines with distinct arguments (echo check; race build in the thorough tier).",
    note="Trusted: reflect's ConvertibleTo/Convert as 'Go's own conversion'. Excluded: string to uint8/int32 (documented rune path), pointer-to-pointer of other types, arrays, surplus spread elements, functions typed like the VM-function protocol."),
  "C12": dict(
    cat="exploration", ref="DESIGN.md section 3, C12",
@@ -92,7 +92,7 @@ CLAIMED.update({
  "C14": dict(
    cat="exploration", ref="DESIGN.md section 3, C14",
    technique="runtime structural + differential monitor: reflection dump of the shared parsed tree before/after every run, observation equality between a solo run and repeated/concurrent runs of one tree on fresh environments, canaries on process-global interpreter state, Go race detector on the concurrent phase",
-   text="Each program (35 feature programs incl. large-integer arithmetic and maps that grow while ranged over (8 reruns each); further programs aimed at per-node runtime data and import tables, generated programs of every profile, the repository's goroutine-free scripts) is parsed once; sequential phase: 3 runs in fresh equal environments with a dump comparison after each; concurrent phase in the race build: 8 goroutines run the one shared tree behind a barrier on 8 fresh environments and must each reproduce the solo run's value, error text and probe trace; after every case canaries check the shared ++ literal, the small-int cache, the package-table sizes and that a fresh environment's imports are pristine.",
+   text="Each program (35 feature programs incl. large-integer arithmetic and maps that grow while ranged over (8 reruns each); further programs aimed at per-node runtime data and import tables, generated programs of every profile, the repository's goroutine-free scripts) is parsed once; sequential phase: 3 runs in fresh equal environments with a dump comparison after each; hist phase: every program's observation in a process with a history (2-6 programs of complementary groups run first) equals its observation as the only program of a fresh child process; iso phase: after module copy, import, Copy/DeepCopy of a template every mutation on one side is invisible on the other (scripts and env API); concurrent phase in the race build: 8 goroutines run the one shared tree behind a barrier on 8 fresh environments and must each reproduce the solo run's value, error text and probe trace; after every case canaries check the shared ++ literal, the small-int cache, the package-table sizes and that a fresh environment's imports are pristine.",
    note="Trusted: astx dump completeness (generic over struct fields, so added fields are seen). Skipped as outside repeatability: corpus scripts using import, goroutines, channels, map iteration, keys(), printing, time."),
  "C15": dict(
    cat="exploration", ref="DESIGN.md section 3, C15",
